@@ -122,7 +122,7 @@ Proof. reflexivity. Qed.
 (* ---- T1: the one-expression bodies this property's code consists of besides the modelled core, as they stand
         in the source now (coq/gen/GenSigs.v gen_thin_bodies) ---- *)
 From Coq Require Import String.
-From GA Require Import SigTie.
+From GA Require Import SigDefs.
 From GAGen Require Import GenSigs.
 Local Open Scope string_scope.
 
